@@ -192,4 +192,30 @@ for f in sorted((SRC / "linux/sections").glob("*.rs")):
     if re.search(r"config\s*:\s*&mut\s+MinidumpWriter", t): dump_time |= mutated_fields(t)
 emit("Definition dump_mutated_fields : list string := [" + "; ".join('"%s"' % x for x in sorted(dump_time)) + "]%string.")
 emit("Definition dump_reset_fields : list string := [" + "; ".join('"%s"' % x for x in sorted(reset)) + "]%string.")
+
+# ---- the memory-writer operations of every function that builds a stream, in textual order
+MEMOPS = [("alloc_with_val", r"MemoryWriter(?:::<[^>]*>)?::alloc_with_val\s*\("), ("alloc", r"MemoryWriter(?:::<[^>]*>)?::alloc\s*\("),
+          ("alloc_array", r"MemoryArrayWriter(?:::<[^>]*>)?::alloc_array\s*\("), ("alloc_from_array", r"MemoryArrayWriter(?:::<[^>]*>)?::alloc_from_array\s*\("),
+          ("alloc_from_iter", r"MemoryArrayWriter(?:::<[^>]*>)?::alloc_from_iter\s*\("), ("write_bytes", r"MemoryArrayWriter(?:::<[^>]*>)?::write_bytes\s*\("),
+          ("set_value_at", r"\.\s*set_value_at\s*\("), ("set_value", r"\.\s*set_value\s*\("),
+          ("write_string", r"\bwrite_string_to_location\s*\("), ("write_all", r"\bbuffer\s*\.\s*write_all\s*\("),
+          ("dir_flush", r"\bdir_section\s*\.\s*write_to_file\s*\(")]
+def memops(body):
+    hits = []
+    for name, rx in MEMOPS:
+        for m in re.finditer(rx, body): hits.append((m.start(), name))
+    return [n for _, n in sorted(hits)]
+builders = [("linux/sections/thread_list_stream.rs", None), ("linux/sections/mappings.rs", None), ("linux/sections/app_memory.rs", None),
+            ("linux/sections/memory_list_stream.rs", None), ("linux/sections/exception_stream.rs", None), ("linux/sections/systeminfo_stream.rs", None),
+            ("linux/sections/memory_info_list_stream.rs", None), ("linux/sections/thread_names_stream.rs", None), ("linux/sections/handle_data_stream.rs", None),
+            ("linux/dso_debug.rs", None), ("linux/minidump_writer.rs", ("generate_dump", "write_file", "write_soft_errors")), ("mem_writer.rs", ("write_string_to_location",)), ("dir_section.rs", ("new", "dump_dir_entry"))]
+rows = []
+for path, only in builders:
+    t = strip_comments((SRC / path).read_text())
+    for name, sig, body in functions(t):
+        if only is not None and name not in only: continue
+        ops = memops(body)
+        if ops: rows.append((path.split("/")[-1][:-3] + "::" + name, ops))
+emit("Definition section_ops : list (string * list memop) := [\n  " +
+     ";\n  ".join('("%s"%%string, [%s])' % (k, "; ".join("Op_" + o for o in ops)) for k, ops in rows) + "].")
 open(OUT, "w").write("\n".join(out) + "\n")
